@@ -16,6 +16,7 @@ void ProtoRun::probe_cb(const vsim_probe_t *p, void *arg) {
     ProtoRun *self = (ProtoRun *) arg;
     self->probe_next = p->seq + 1;
     self->audit.on_probe(p);
+    if ((p->kind == VSIM_PR_GCM_DEC || p->kind == VSIM_PR_CHACHA_DEC) && p->rc < 0 && (p->node == 1 || p->node == 2)) { self->obs.aead_fail[p->node - 1]++; }
     if (p->kind != VSIM_PR_GCM_ENC && p->kind != VSIM_PR_CHACHA_ENC && p->kind != VSIM_PR_CBC_ENC) { return; }
     if (self->obs.seals.size() > 20000) { return; }
     SealRec s;
@@ -215,6 +216,17 @@ void ProtoRun::filter_record(Record &r, std::vector<Bytes> &out) {
             size_t nl = blen - cut; size_t lo = pc.dtls() ? 11 : 3;
             u.b[lo] = (unsigned char) (nl >> 8); u.b[lo + 1] = (unsigned char) nl;
             u.tampered = true; u.kind = "trunc"; u.is_mod = is_mod;
+        } else if (a.kind == "cutfront") {
+            // the leading cipher blocks of the body (explicit IV first) removed, length field adjusted: what remains still ends in the
+            // sender's last blocks, so under CBC its padding decrypts correctly although MAC and IV no longer fit
+            size_t nblk = blen / 16;
+            if (nblk >= 2) {
+                size_t cut = 16 * (1 + (size_t) ((uint64_t) a.a % (nblk - 1)));
+                u.b.erase(u.b.begin() + (long) hdr, u.b.begin() + (long) (hdr + cut));
+                size_t nl = blen - cut; size_t lo = pc.dtls() ? 11 : 3;
+                u.b[lo] = (unsigned char) (nl >> 8); u.b[lo + 1] = (unsigned char) nl;
+                u.tampered = true; u.kind = "cutfront"; u.is_mod = is_mod;
+            }
         } else if (a.kind == "extend") {
             size_t add = 1 + (size_t) ((uint64_t) a.a % 32);
             Rng g((uint64_t) a.b + 17);
@@ -299,6 +311,7 @@ void ProtoRun::hand_to_receiver(int dir, const Bytes &unit, bool tampered_in, co
     }
     bool skip_watch = role == 1 && pc.version == v_tls_1_3 && !rcv.is_complete() && unit.size() > 5 && unit[0] == 23 && !obs.death[role].dead;
     int hs_before = rcv.hs_state(); size_t out_pending_before = rcv.pending_out(); size_t ev_n = rcv.events.size();
+    int aead_fail_before = obs.aead_fail[role]; bool complete_before_feed = rcv.is_complete();
     if (split && !pc.dtls() && unit.size() > 1) {
         // stream re-chunking: the same bytes in 2..4 pieces at seeded offsets (a legal transport behaviour)
         size_t off = 0; int pieces = 1 + split;
@@ -333,7 +346,15 @@ void ProtoRun::hand_to_receiver(int dir, const Bytes &unit, bool tampered_in, co
     size_t out_after = 0;
     for (auto &u : g_q[1 - dir]) { out_after += u.b.size(); }
     if (obs.tamper_consumed[dir] && out_after > out_before) { obs.out_bytes_after_tamper[dir] += out_after - out_before; }
-    after_event();
+    after_event();    if (obs.aead_fail[role] > aead_fail_before && !was_dead && !obs.death[role].dead && rcv.alive()) {
+        // a record failed authenticated decryption inside this call and the session lives on.  The one tolerated case: a TLS 1.3 server
+        // that has not completed skips records while rejecting early data (bounded separately by skipped_undecryptable_bytes)
+        bool early_skip = role == 1 && pc.version == v_tls_1_3 && !complete_before_feed;
+        if (!early_skip) {
+            obs.aead_fail_survived[role] += obs.aead_fail[role] - aead_fail_before;
+            if (obs.aead_fail_survived_ctx[role].empty()) { obs.aead_fail_survived_ctx[role] = std::string(complete_before_feed ? "connected" : "handshake") + "," + kind; }
+        } else { obs.counters["aead_fail.early_skip"]++; }
+    }
 }
 
 Bytes ProtoRun::craft(int dir, const Op &op, bool &is_mod, std::string &kind) {
